@@ -18,6 +18,9 @@ corpus_types! {
     struct STup(u8, i64, String);
 
     #[derives(Serialize, Deserialize, Debug, Clone, PartialEq, Schema)]
+    struct SUnsorted { zz: u8, aa: u16, mm: String, bb: Option<u8> }
+
+    #[derives(Serialize, Deserialize, Debug, Clone, PartialEq, Schema)]
     struct SEmptyTup();
 
     #[derives(Serialize, Deserialize, Debug, Clone, PartialEq, Schema)]
@@ -30,7 +33,7 @@ corpus_types! {
     enum SBasic { A, B, C }
 
     #[derives(Serialize, Deserialize, Debug, Clone, PartialEq, Schema)]
-    enum SData { Unit, New(u16), Tup(u8, i32), Rec { a: u64, b: Option<bool> }, Zero(), ZeroRec {}, Nested(SBasic), Str(String), Seq(Vec<SNew>) }
+    enum SData { Unit, New(u16), Tup(u8, i32), Rec { a: u64, b: Option<bool> }, Zero(), ZeroRec {}, Nested(SBasic), Str(String), Seq(Vec<SNew>), One { only: u32 }, Unsorted { zeta: u8, alpha: u16, mid: bool } }
 
     #[derives(Serialize, Deserialize, Debug, Clone, PartialEq, Schema)]
     struct SNested { p: SNamed, d: SData, v: Vec<SData>, o: Option<SNew>, t: (u8, (u16, u32), [i16; 3]), u: SUnit, r: Result<SBasic, STup> }
@@ -90,7 +93,7 @@ macro_rules! for_each_shaped_schema_type {
         $m!(std::ops::Range<u16>); $m!(std::ops::RangeInclusive<i32>); $m!(std::ops::RangeFrom<u8>); $m!(std::ops::RangeTo<u64>);
         $m!(heapless_v0_7::Vec<u8, 4>); $m!(heapless_v0_7::String<8>);
         $m!($crate::corpus::SUnit); $m!($crate::corpus::SNew); $m!($crate::corpus::STup); $m!($crate::corpus::SEmptyTup); $m!($crate::corpus::SNamed);
-        $m!($crate::corpus::SEmptyNamed); $m!($crate::corpus::SBasic); $m!($crate::corpus::SData); $m!($crate::corpus::SNested); $m!($crate::corpus::SColls);
+        $m!($crate::corpus::SEmptyNamed); $m!($crate::corpus::SUnsorted); $m!($crate::corpus::SBasic); $m!($crate::corpus::SData); $m!($crate::corpus::SNested); $m!($crate::corpus::SColls);
         $m!($crate::corpus::SStd); $m!($crate::corpus::SHeap7); $m!($crate::corpus::SOpts); $m!($crate::corpus::SArrays);
         $m!($crate::corpus::SGen<u16>); $m!($crate::corpus::SGen<$crate::corpus::SData>);
     };
